@@ -4,6 +4,7 @@ mod gen_enc;
 mod gen_geom;
 mod gen_plan;
 mod gen_rs;
+mod gen_str;
 mod gen_sym;
 mod replay;
 mod strings;
@@ -92,6 +93,16 @@ fn main() {
             }
             out.flush();
             eprintln!("plan: {} cases", cases.len());
+        }
+        ("gen", "str") => {
+            let mut out = Out::create(&out_path, false);
+            gen_str::run(&tier, seed, &focus, &mut out);
+            out.flush();
+        }
+        ("gen", "dec") => {
+            let mut out = Out::create(&out_path, false);
+            gen_str::run_dec(&tier, seed, profile, &mut out);
+            out.flush();
         }
         ("gen", "rs") => {
             let cases = gen_rs::cases(&tier, seed, &focus);
